@@ -1,0 +1,14 @@
+//go:build verif
+
+package ui
+
+// Contracts for govc (see /verif/DESIGN.md). Comment-only file: it adds no code.
+
+// The operator's menu (C14): the button handler resumes only a pipeline that was shown as
+// paused and pauses only one that was shown as running - the state read when the menu opened
+// decides, never both and never the opposite call.
+//@ func (*UI).showMenuModal$1
+//@   property C14
+//@   attr hooked @C14 Pause,Resume
+//@   assert pause.Resume()#1: [only-when-paused] @C14 isPaused // C14: the operator's Unpause button resumes only a pipeline that was paused when the menu opened (no unmatched Resume from the operator)
+//@   assert Pause(?)#1: [only-when-running] @C14 !isPaused // C14: the operator's Pause button pauses only a pipeline that was running when the menu opened
